@@ -2292,3 +2292,16 @@ PROPS["C19"]["level_text"] += (" UTF-8 of the whole input (Props/C19Utf8.lean ov
     "valid UTF-8' / 'decoded key valid UTF-8' disappear from the right-hand sides (a grammar value and a key literal start with an ASCII byte "
     "and are followed by whitespace, a structural byte or the end of the input, so they are cut out at character boundaries - validUtf8_mid; "
     "escape-decoding a valid literal gives valid UTF-8 - decodeItems_utf8).")
+
+# wip-v1: the fuel outcome excluded from C01's range clause by a C01 corollary (Props/C01NoFuel.lean)
+PROPS["C01"]["lean_targets"] = PROPS["C01"]["lean_targets"][:-1] + ["SJ.Props.C01NoFuel"] + PROPS["C01"]["lean_targets"][-1:]
+PROPS["C01"]["level_text"] += (" Range clause and fuel (Props/C01NoFuel.lean, over c14_no_fuel_literal / c14_no_fuel_roundtrip): "
+    "c01_range_clause_no_fuel - for every configuration and every grammatical number literal p, the configured conversion "
+    "Spec.Canon.convert cfg p is never outOfFuel and numOf cfg p = none holds iff arbitrary_precision is off and the conversion returns the "
+    "genuine outOfRange (c01_range_clause_isSome: the positive form); c01_accepts_iff_no_fuel - c01_accepts_iff with the range clause "
+    "spelled out per literal as 'unless arbitrary_precision, convert cfg p is not outOfRange', in which outOfFuel does not occur.")
+PROPS["C01"]["partial"] = [p for p in PROPS["C01"]["partial"] if not p.startswith("fuel: numValue maps")] + [
+    "fuel: numValue maps the conversion's outOfFuel to NumberOutOfRange and numOf maps it to none; that outcome is excluded for every "
+    "grammatical literal by c01_range_clause_no_fuel (from c14_no_fuel_literal / c14_no_fuel_roundtrip), and c01_accepts_iff_no_fuel "
+    "restates the iff with a range clause that mentions only outOfRange. The clause is still the model's conversion (Model.Num), not the "
+    "exact value: that relation is c01_range_fr / c01_range_default_band"]
